@@ -20,6 +20,7 @@ type NetParams struct {
 	LatencyMin time.Duration // per segment
 	LatencyMax time.Duration
 	ShortReads bool // Read returns a seeded prefix of what is available
+	EOFWithData bool // the Read that drains the stream after the peer's FIN returns (n, io.EOF) instead of (n, nil)
 	Window     int  // bytes that may be in flight + unread before Write blocks (0 = unlimited)
 }
 
@@ -178,6 +179,11 @@ func (c *Conn) Read(p []byte) (int, error) {
 		copy(p, c.in.buf[:n])
 		c.in.buf = c.in.buf[n:]
 		s.Logf("%s read %d", c.name, n)
+		if c.p.EOFWithData && len(c.in.buf) == 0 && c.in.fin {
+			// a transport may hand over the last bytes together with io.EOF (legal for an io.Reader)
+			s.Count("net.eof_with_data")
+			return n, io.EOF
+		}
 		return n, nil
 	case c.in.rst:
 		return 0, ErrReset
